@@ -12,9 +12,11 @@ from .real_restore_logger import RealRestoreLogger
 from .restore_cmd import RestoreCmd
 from .trash_directories import TrashDirectoriesImpl
 from .trashed_files import TrashedFiles
+from ..file_system_reader import FileSystemReader
 from ..fstab.volumes import RealVolumes
 from ..lib.logger import my_logger
 from ..lib.my_input import RealInput
+from ..trash_dirs_scanner import TopTrashDirRules
 
 
 def main():
@@ -22,7 +24,9 @@ def main():
     volumes = RealVolumes()
     trash_directories = TrashDirectoriesImpl(volumes,
                                              os.getuid(),
-                                             os.environ)
+                                             os.environ,
+                                             TopTrashDirRules(
+                                                 FileSystemReader()))
     searcher = InfoDirSearcher(trash_directories, info_files)
     trashed_files = TrashedFiles(RealRestoreLogger(my_logger),
                                  RealFileReader(),
